@@ -348,7 +348,7 @@ Proof.
   rewrite E. unfold frev. rewrite !rev_append_rev, !app_nil_r, !rev_involutive. reflexivity.
 Qed.
 
-(* hence the padding rows are keys wide exactly when the repaired variant is used or the chart has 4 keys *)
+(* hence the padding rows are keys wide exactly when v_pad is set (the current behaviour) or the chart has 4 keys *)
 Corollary pad_rows_width (cf : smconf) (v : variant) (k : Z) : k_metronome cf = 4%Z -> (0 <= k)%Z ->
   (forall r, In r (split_on 10 (pad_measure cf v (Some k))) -> Z.of_nat (length r) = k) <-> (v_pad v = true \/ k = 4%Z).
 Proof.
@@ -359,7 +359,12 @@ Proof.
     + subst k. destruct (v_pad v). rewrite repeat_length; lia. reflexivity.
 Qed.
 
-(* ====================== defects of the pinned tree: witnesses, and the repaired variants ====================== *)
+(* the current writer: padding rows are always keys wide *)
+Corollary pad_rows_width_current (cf : smconf) (k : Z) : k_metronome cf = 4%Z -> (0 <= k)%Z ->
+  forall r, In r (split_on 10 (pad_measure cf current (Some k))) -> Z.of_nat (length r) = k.
+Proof. intros Hm Hk. apply (pad_rows_width cf current k Hm Hk). left. reflexivity. Qed.
+
+(* ====================== former defects (OLD variants): witnesses; the current model on the same inputs ====================== *)
 From RV Require Import Generated.Tables Proofs.SMWitness.
 
 Definition live_conf : smconf :=
@@ -372,48 +377,51 @@ Definition renders (tol : Q) (o : option (list tok)) (t : text) : bool :=
   match o with Some toks => match_toks tol toks t | None => false end.
 Definition tol9 : Q := 1 # 1000000000.
 
-(* C03, selectable = False.  The pinned writer emits the bare token "NO;": the text the implementation wrote is a
-   rendering of the pinned model's tokens, and it is not a well-formed .sm text. *)
-Theorem sm_write_wf_refuted_selectable :
-  exists s txt, s_sel s = false /\ renders tol9 (sm_write live_conf pinned s) txt = true /\ wf_sm_textb txt = false.
-Proof. exists w_sel_set, w_sel_txt_pinned. vm_compute. auto. Qed.
-(* with the repaired formatter the same mapset is written as a well-formed text that denotes it *)
-Theorem sm_write_selectable_repaired :
-  renders tol9 (sm_write live_conf (mkVar true false false) w_sel_set) w_sel_txt_repaired = true /\
-  match sm_denote w_sel_txt_repaired with Some d => write_spec (1 # 1000000) true w_sel_set d | None => false end = true.
+(* OLD (before 16f3fe3), selectable = False: the bare token "NO;" — the text the old implementation wrote is a rendering
+   of the OLD model's tokens, and it is not a well-formed .sm text. *)
+Theorem sm_write_wf_refuted_OLD_selectable :
+  exists s txt, s_sel s = false /\ renders tol9 (sm_write live_conf OLD_selectable_bare_no s) txt = true /\ wf_sm_textb txt = false.
+Proof. exists w_sel_set, w_sel_txt_old. vm_compute. auto. Qed.
+(* the current model writes the same mapset as a well-formed text that denotes it *)
+Theorem sm_write_selectable_current :
+  renders tol9 (sm_write live_conf current w_sel_set) w_sel_txt_current = true /\
+  match sm_denote w_sel_txt_current with Some d => write_spec (1 # 1000000) true w_sel_set d | None => false end = true.
 Proof. vm_compute. auto. Qed.
 
-(* C03, empty-measure padding in a chart whose key count is not 4 (here kb7-single, first object in measure 1) *)
-Theorem sm_write_wf_refuted_padding :
-  exists s txt, renders tol9 (sm_write live_conf pinned s) txt = true /\ wf_sm_textb txt = false.
-Proof. exists w_pad_set, w_pad_txt_pinned. vm_compute. auto. Qed.
-Theorem sm_write_padding_repaired :
-  renders tol9 (sm_write live_conf (mkVar false true false) w_pad_set) w_pad_txt_repaired = true /\
-  match sm_denote w_pad_txt_repaired with Some d => write_spec (1 # 1000000) true w_pad_set d | None => false end = true.
+(* OLD (before d872b70): "0000" padding in a chart whose key count is not 4 (kb7-single, first object in measure 1) *)
+Theorem sm_write_wf_refuted_OLD_padding :
+  exists s txt, renders tol9 (sm_write live_conf OLD_pad_0000 s) txt = true /\ wf_sm_textb txt = false.
+Proof. exists w_pad_set, w_pad_txt_old. vm_compute. auto. Qed.
+Theorem sm_write_padding_current :
+  renders tol9 (sm_write live_conf current w_pad_set) w_pad_txt_current = true /\
+  match sm_denote w_pad_txt_current with Some d => write_spec (1 # 1000000) true w_pad_set d | None => false end = true.
 Proof. vm_compute. auto. Qed.
 
-(* C02: a well-formed text in the domain without a #STOPS tag: the pinned reader raises (None), the repaired one
-   returns what the text denotes *)
+(* OLD (before d64b5ab): a well-formed text in the domain without a #STOPS tag raised (None);
+   the current reader returns what the text denotes *)
+Definition has_no_stops_item (txt : text) : bool :=
+  match sm_denote txt with Some d => negb (has_stops_tag d) | None => false end.
 Definition in_c02_domain (txt : text) : bool :=
   match sm_denote txt with Some d => c02_dom d && dialect_ok txt d | None => false end.
-Theorem sm_read_refuted_no_stops_tag :
-  exists txt, in_c02_domain txt = true /\ sm_read live_conf pinned txt = None.
+Theorem sm_read_refuted_OLD_no_stops_tag :
+  exists txt, in_c02_domain txt = true /\ sm_read live_conf OLD_stops_none txt = None.
 Proof. exists w_read_txt. vm_compute. auto. Qed.
-Theorem sm_read_no_stops_tag_repaired :
-  match sm_denote w_read_txt, sm_read live_conf repaired w_read_txt with
+Theorem sm_read_no_stops_tag_current :
+  in_c02_domain w_read_txt = true /\ has_no_stops_item w_read_txt = true /\
+  match sm_denote w_read_txt, sm_read live_conf current w_read_txt with
   | Some d, Some s => read_spec 0 d s
   | _, _ => false end = true.
-Proof. vm_compute. reflexivity. Qed.
+Proof. vm_compute. auto. Qed.
 
-(* non-vacuity: inputs inside the domains on which the pinned code is right *)
+(* non-vacuity: inputs inside the domains *)
 Theorem sm_read_example :
   in_c02_domain w_read_txt2 = true /\
-  match sm_denote w_read_txt2, sm_read live_conf pinned w_read_txt2 with
+  match sm_denote w_read_txt2, sm_read live_conf current w_read_txt2 with
   | Some d, Some s => read_spec 0 d s && negb (length (d_tempo d) <? 2)%nat && negb (length (flat_map d_notes (d_charts d)) <? 4)%nat
   | _, _ => false end = true.
 Proof. vm_compute. auto. Qed.
 Theorem sm_write_example :
-  renders tol9 (sm_write live_conf pinned w_ok_set) w_ok_txt = true /\
+  renders tol9 (sm_write live_conf current w_ok_set) w_ok_txt = true /\
   match sm_denote w_ok_txt with Some d => write_spec (1 # 1000000) false w_ok_set d | None => false end = true.
 Proof. vm_compute. auto. Qed.
 
@@ -433,3 +441,8 @@ Proof.
   change (35%Z :: tag ++ 58%Z :: v) with ((35%Z :: tag) ++ 58%Z :: v).
   rewrite (cut_colon_app (35%Z :: tag) v [] H'). unfold frev. rewrite !rev_append_rev, !app_nil_r, rev_involutive. reflexivity.
 Qed.
+
+(* the current header formatter: the #SELECTABLE line is an item for both values, read back as written *)
+Theorem selectable_item_current (b : bool) :
+  parse_item (tx (if b then "#SELECTABLE:YES" else "#SELECTABLE:NO")) = Some (tx "#SELECTABLE", tx (if b then "YES" else "NO")).
+Proof. destruct b; vm_compute; reflexivity. Qed.
